@@ -439,6 +439,9 @@ func BuildJoin(query *Query, joinExpr *sqlparser.JoinTableExpr) error {
 	if err != nil {
 		return err
 	}
+	if joinExpr.Condition == nil {
+		return UNSUPPORTED_CASE.Extend("joins without an ON or USING condition are not supported")
+	}
 	if joinExpr.Condition.On == nil {
 		expr := new(sqlparser.AndExpr)
 		expr.Left = sqlparser.BoolVal(true)
